@@ -69,6 +69,9 @@ class ConnView:
         self.packets: list[tuple[int, int, str]] = []              # (seq, type id, state when handed to process_packet)
 
 
+DEFAULT_V4, DEFAULT_V6 = "10.0.0.1", "fd00::1"
+
+
 class Sim:
     def __init__(self, seed: int = 0, start: float | None = None) -> None:
         self.seed = seed
@@ -313,11 +316,12 @@ class Sim:
         return not sel._ready()  # noqa: SLF001
 
     # ------------------------------------------------------------------ world building
-    def device(self, cfg: DeviceConfig | None = None, addresses: tuple[str, ...] = ("10.0.0.1",), delay: float = 0.001) -> SimDevice:
+    def device(self, cfg: DeviceConfig | None = None, addresses: tuple[str, ...] | None = None, delay: float = 0.001) -> SimDevice:
         dev = SimDevice(self, cfg)
         self.devices.append(dev)
         prev = self.net.connect_policy
-        addrs = set(addresses)
+        # (a device placed at the default address is reachable over IPv4 and over IPv6: clients built with the default address rotate between them)
+        addrs = set(addresses if addresses is not None else (DEFAULT_V4, DEFAULT_V6))
 
         def policy(sock: Any, addr: Any) -> tuple[Any, ...]:
             if addr[0] in addrs:
@@ -327,9 +331,14 @@ class Sim:
         self.net.connect_policy = policy
         return dev
 
-    def client(self, address: str = "10.0.0.1", port: int = 6053, password: str | None = None, *, outside_loop: bool = False,
+    def client(self, address: str | None = None, port: int = 6053, password: str | None = None, *, outside_loop: bool = False,
                debug: bool | None = None, **kw: Any) -> Any:
         from aioesphomeapi import APIClient
+
+        if address is None:
+            # the address family of a session is a harness choice that rotates: an IPv6 peer has 4-tuple socket addresses (host, port, flowinfo,
+            # scope id) everywhere - getpeername(), get_extra_info("peername"), what is handed to connect()
+            address = DEFAULT_V6 if rotation.decide("address_family", ("v4", "v4", "v6")) == "v6" else DEFAULT_V4
 
         global _CLIENTS_MADE
         _CLIENTS_MADE += 1
